@@ -1,0 +1,28 @@
+//! Verification-only hooks. Compiled only with the `verif-hooks` cargo feature; the
+//! shipped crate does not contain this module.
+//!
+//! * re-exports the crate-private tokenizer, so that an external harness can run the
+//!   very tokens `replace_numbers_in_text` uses through the public stream API;
+//! * `yield_point`: cooperative scheduling points inside entry points that take `&str`
+//!   (and therefore have no caller-owned seam). A deterministic simulator installs a
+//!   callback that hands control to its scheduler; without a callback it is a no-op.
+use std::sync::OnceLock;
+
+pub use crate::tokenizer::{tokenize, BasicToken, Tokenize};
+
+static YIELD_HOOK: OnceLock<fn(u32)> = OnceLock::new();
+
+/// Install the process-wide yield callback (first call wins).
+pub fn set_yield_hook(hook: fn(u32)) -> bool {
+    YIELD_HOOK.set(hook).is_ok()
+}
+
+/// Sites: 1 = `LangInterpreter::exec_group` per word, 2 = `WordToDigitParser::push`,
+/// 3 = `English::basic_annotate` per token, 4 = `French::basic_annotate` per token,
+/// 5 = `NumTracker::replace` per occurrence.
+#[inline]
+pub fn yield_point(site: u32) {
+    if let Some(hook) = YIELD_HOOK.get() {
+        hook(site)
+    }
+}
